@@ -32,6 +32,32 @@ PROPS['C01'] = dict(
     assumptions=['PURE_CHILDREN', 'values of one column have one Python type (structural equality of values coincides with ==)'],
 )
 
+PROPS['C02'] = dict(
+    level='other',
+    harness='h02',
+    min_t1=30,
+    explanation='T1 (unbounded): the allocator hands out distinct handles below its size and creates stores with one NULL slot per handle; '
+                'every aggregator (count(*), count(x), sum int/decimal, first, last, min, max) update maps exactly its own slot to '
+                'step(slot, operand value) - NULL operands skipped where the statement says so - and frames every other slot; initialize '
+                'sets the zero of the type / NULL and frames the rest; finalize publishes the slot. The group loop of execute_select '
+                '(partition by key tuple, first-appearance order, HAVING) is decided on a bounded scope (T3 harness: every aggregate x key set '
+                'x key style incl. implicit / positional / by name / invisible keys, NULL keys, interleaved groups, WHERE/HAVING, '
+                'arithmetic over aggregates, additivity of counts and sums).',
+    trusted_base=['Decimal/int addition as Python +', 'the group loop itself is not under a T1 contract (bounded only)'],
+    assumptions=['PURE_CHILDREN'],
+)
+PROPS['C03'] = dict(
+    level='other',
+    harness='h03',
+    min_t1=8,
+    explanation='T1 (unbounded): NullType orders before every value and not before itself; both nullitemgetter closures return the '
+                'item / the tuple of items in argument order with None replaced by NULL (loop invariant over any number of keys); '
+                'uniquify yields exactly the first occurrences in order (recursive spec uniq/mem, invariant over the seen-set) for every input length. '
+                'The multi-pass sort, projection, DISTINCT-then-LIMIT pipeline and ORDER BY key resolution are decided on a bounded scope (T3).',
+    trusted_base=['list.sort is a stable sort, also with reverse=True (CPython documentation)', 'set membership coincides with == on row tuples'],
+    assumptions=['values in one column are mutually comparable'],
+)
+
 NOT_APPLICABLE = {}
 
 BASELINE_CMD = ('cd /repo && env -u BEANQUERY_VERIF /venv/bin/python -m pytest -ra -q -p no:cacheprovider --timeout=900 '
